@@ -90,6 +90,11 @@ func (s MsgServer) BondedOracle(c context.Context, msg *types.MsgBondedOracle) (
 	s.SetOracleAddrByBridgerAddr(ctx, bridgerAddr, oracleAddr)
 	s.SetOracleAddrByExternalAddr(ctx, msg.ExternalAddress, oracleAddr)
 	s.SetLastTotalPower(ctx)
+	// a returning oracle keeps its old vote cursor, but like a new oracle it does not have to
+	// replay history that has been observed in the meantime
+	if lastObserved := s.GetLastObservedEventNonce(ctx); lastObserved > 0 && s.GetLastEventNonceByOracle(ctx, oracleAddr) < lastObserved-1 {
+		s.SetLastEventNonceByOracle(ctx, oracleAddr, lastObserved-1)
+	}
 
 	ctx.EventManager().EmitEvent(sdk.NewEvent(
 		sdk.EventTypeMessage,
@@ -344,7 +349,8 @@ func (s MsgServer) UnbondedOracle(c context.Context, msg *types.MsgUnbondedOracl
 	s.DelOracleAddrByExternalAddr(ctx, oracle.ExternalAddress)
 	s.DelOracleAddrByBridgerAddr(ctx, oracle.GetBridger())
 	s.DelOracle(ctx, oracle.GetOracle())
-	s.DelLastEventNonceByOracle(ctx, oracleAddr)
+	// the event nonce cursor is kept: if the oracle is approved and bonds again it must not be able
+	// to vote a second time on an event it already voted for (see BondedOracle)
 
 	return &types.MsgUnbondedOracleResponse{}, nil
 }
